@@ -49,3 +49,24 @@ Example C09_overflow_before_repair_refuted :
   needs_decomposition_old [[c]; [c]] = false /\ pen_decomposes [c] = true /\ needs_decomposition [[c]; [c]] = true.
 Proof. exact old_code_keeps_an_overflowing_composite. Qed.
 Print Assumptions C09_overflow_before_repair_refuted.
+
+(* ---- sparse masters: placeholders for missing component bases (OutlineTTFCompiler.makeMissingRequiredGlyphs) ---- *)
+From U2F Require Import Interp.Placeholders Interp.PlaceholdersProofs.
+
+Theorem C09_placeholders_cover_components : forall gs g b,
+  In g (add_placeholders true gs) -> In b (snd g) -> In b (names (add_placeholders true gs)).
+Proof. exact placeholders_cover_components. Qed.
+Print Assumptions C09_placeholders_cover_components.
+
+(* so the TrueType pen, which drops components with unknown bases, keeps every composite of a non-default master as it is *)
+Theorem C09_sparse_master_keeps_component_lists : forall gs g,
+  In g (add_placeholders true gs) -> pen_components (add_placeholders true gs) (snd g) = snd g.
+Proof. exact sparse_master_keeps_component_lists. Qed.
+Print Assumptions C09_sparse_master_keeps_component_lists.
+
+Example C09_without_placeholders_a_component_is_dropped :
+  let gs := [([1%Z], [[2%Z]; [3%Z]]); ([3%Z], [])] in
+  pen_components (add_placeholders false gs) [[2%Z]; [3%Z]] = [[3%Z]] /\
+  pen_components (add_placeholders true gs) [[2%Z]; [3%Z]] = [[2%Z]; [3%Z]].
+Proof. exact without_placeholders_a_component_is_dropped. Qed.
+Print Assumptions C09_without_placeholders_a_component_is_dropped.
